@@ -23,6 +23,8 @@ func checkC08(c *Ctx) {
 	c.rule("C08.d", "one delivery channel per expunge", 2)
 	c.rule("C08.e", "tracker updates fan out to every session but the source", 1)
 	c.rule("C08.f", "FETCH responses of the backend carry an encoded, non-zero sequence number", 1)
+	c.rule("C08.g", "a session registers with the mailbox tracker inside the critical section that takes its EXISTS snapshot", 2)
+	c.rule("C08.h", "tracker queue: writer and sequence-number translation agree on one entry per update", 2)
 	c.rule("C08.L", "layering lemma", 1)
 	cut := layeringCut(c, "C08.L")
 	g := buildModGraph(p, p.VTA(), nil)
@@ -96,6 +98,8 @@ func checkC08(c *Ctx) {
 	if nm == 0 {
 		c.unresolvedRoot("functions modifying Mailbox.l")
 	}
+	ruleRegistrationAtomic(c, "C08.g", la)
+	ruleQueueEncoding(c, "C08.h")
 	// expungeLocked: per removed message exactly one QueueExpunge: the call and the "keep" append are the two arms of one test
 	if ex := p.Func("imapserver/imapmemserver", "Mailbox", "expungeLocked"); ex != nil {
 		okArms := false
@@ -377,6 +381,7 @@ func checkC09(c *Ctx) {
 	c.rule("C09.b", "UIDVALIDITY: prevUidValidity only incremented, in Create, and handed to NewMailbox", 2)
 	c.rule("C09.c", "message flag map accessed only through canonicalFlag", 7)
 	c.rule("C09.d", "wire-supplied integers never reach a slice bound unguarded", 1)
+	c.rule("C09.e", "mailbox namespace: the key inserted into User.mailboxes is the key whose absence was checked, and is the mailbox's own name", 4)
 	c.rule("C09.L", "layering lemma", 1)
 	cut := layeringCut(c, "C09.L")
 	la := newLockAnalysis(p, serverRoots(p), cut)
@@ -421,6 +426,12 @@ func checkC09(c *Ctx) {
 				}
 				if lr, ok := loadedField(s2.Val); ok && lr.is("Mailbox", "uidNext") && precedes(s2, st) {
 					assigned = true
+					// the read of uidNext belongs to the same critical section as the increment
+					if ld, ok := s2.Val.(ssa.Instruction); ok {
+						hl, _ := la.heldAt(ld)
+						c.check(hl.hasClass("imapmemserver.Mailbox.mutex"), "C09.a", fnKey(fn)+": uidNext read for message.uid under the lock", ld.Pos(), "read under the mailbox lock",
+							"uidNext is read for the new message's UID before the mailbox lock is taken: two concurrent appends can receive the same UID")
+					}
 				}
 			})
 			c.check(assigned, "C09.a", fnKey(fn)+": message.uid = uidNext before the increment", st.Pos(), "the appended message receives the pre-increment value", "the appended message does not receive the pre-increment uidNext: APPENDUID/COPYUID name a UID that is not the message's")
@@ -502,4 +513,214 @@ func checkC09(c *Ctx) {
 		c.unresolvedRoot("accesses to message.flags")
 	}
 	ruleWireIntSums(c, "C09.d")
+	ruleNamespaceKeys(c, "C09.e")
+}
+
+// ruleNamespaceKeys: C09.e. Every insertion into User.mailboxes uses, as
+// its key, the very value (same SSA value, hence same normalisation) whose
+// absence was tested by a dominating lookup, and the inserted mailbox was
+// given that same value as its name (NewMailbox(name, …) / rename(name)).
+func ruleNamespaceKeys(c *Ctx, rule string) {
+	p := c.P
+	n := 0
+	for _, fn := range p.SrcFuncs("imapserver/imapmemserver") {
+		allInstrs(fn, func(i ssa.Instruction) {
+			mu, ok := i.(*ssa.MapUpdate)
+			if !ok {
+				return
+			}
+			r, ok := loadedField(mu.Map)
+			if !ok || !r.is("User", "mailboxes") {
+				return
+			}
+			n++
+			checked := false
+			named := false
+			allInstrs(fn, func(j ssa.Instruction) {
+				switch x := j.(type) {
+				case *ssa.Lookup:
+					if lr, ok := loadedField(x.X); ok && lr.is("User", "mailboxes") && x.Index == mu.Key && x.Block().Dominates(mu.Block()) {
+						checked = true
+					}
+				case *ssa.Call:
+					cal := staticCallee(x)
+					if cal == nil || !(cal.Name() == "NewMailbox" || cal.Name() == "rename") {
+						return
+					}
+					for _, a := range x.Call.Args {
+						if a == mu.Key {
+							named = true
+						}
+					}
+				}
+			})
+			c.check(checked, rule, fnKey(fn)+": insert key was checked absent", mu.Pos(), "a dominating lookup tests the same key value",
+				"the key inserted into User.mailboxes is not the value whose absence was checked (normalised after the check, or a different variable): an existing mailbox can be overwritten")
+			c.check(named, rule, fnKey(fn)+": inserted mailbox carries the key as its name", mu.Pos(), "NewMailbox/rename receives the same value",
+				"the mailbox stored under this key was not given the key as its name: LIST/STATUS report a name that SELECT cannot open")
+		})
+	}
+	if n == 0 {
+		c.unresolvedRoot("insertions into User.mailboxes")
+	}
+}
+
+// ruleRegistrationAtomic: C08.g. MailboxTracker.NewSession makes the session
+// receive every later update; the SELECT data (selectDataLocked) is the
+// snapshot those updates are relative to. Both must happen under the mailbox
+// lock, in one critical section: otherwise an update that lands in between
+// is both in the snapshot and in the queue.
+func ruleRegistrationAtomic(c *Ctx, rule string, la *lockAnalysis) {
+	p := c.P
+	const lock = "imapmemserver.Mailbox.mutex"
+	n := 0
+	for _, fn := range p.SrcFuncs("imapserver/imapmemserver") {
+		var reg, snap []ssa.CallInstruction
+		allInstrs(fn, func(i ssa.Instruction) {
+			call, ok := i.(ssa.CallInstruction)
+			if !ok {
+				return
+			}
+			switch callKey(call) {
+			case "(*MailboxTracker).NewSession":
+				n++
+				h, _ := la.heldAt(i)
+				c.check(h.hasClass(lock), rule, fnKey(fn)+": NewSession under the mailbox lock", i.Pos(), "held: "+h.String(),
+					"a session is registered with the mailbox tracker without holding the mailbox lock on some call path: an APPEND/EXPUNGE landing between the registration and the SELECT snapshot is counted twice")
+			case "(*Mailbox).NewView":
+				reg = append(reg, call)
+			case "(*Mailbox).selectDataLocked":
+				snap = append(snap, call)
+			}
+		})
+		if len(reg) == 0 || len(snap) == 0 {
+			continue
+		}
+		// same critical section: no Unlock of the mailbox lock on any path from the registration to the snapshot
+		for _, r := range reg {
+			n++
+			bad := unlockBetween(r, snap)
+			c.check(bad == nil, rule, fnKey(fn)+": registration and snapshot in one critical section", r.Pos(), "no unlock between NewView and selectDataLocked",
+				"the mailbox lock is released between the tracker registration and the snapshot")
+		}
+	}
+	if n < 2 {
+		c.unresolvedRoot("MailboxTracker.NewSession call / Select snapshot")
+	}
+}
+
+// unlockBetween: a mutex Unlock instruction reachable from `from` before any
+// of the `to` instructions.
+func unlockBetween(from ssa.CallInstruction, to []ssa.CallInstruction) ssa.Instruction {
+	isTo := map[ssa.Instruction]bool{}
+	for _, t := range to {
+		isTo[t] = true
+	}
+	seen := map[*ssa.BasicBlock]bool{}
+	var walk func(b *ssa.BasicBlock, start int) ssa.Instruction
+	walk = func(b *ssa.BasicBlock, start int) ssa.Instruction {
+		for _, i := range b.Instrs[start:] {
+			if isTo[i] {
+				return nil
+			}
+			if call, ok := i.(ssa.CallInstruction); ok {
+				if _, isDefer := i.(*ssa.Defer); !isDefer {
+					if op, _ := isMutexOp(call); op == "Unlock" || op == "RUnlock" {
+						return i
+					}
+				}
+			}
+		}
+		for _, s := range b.Succs {
+			if !seen[s] {
+				seen[s] = true
+				if r := walk(s, 0); r != nil {
+					return r
+				}
+			}
+		}
+		return nil
+	}
+	b := from.Block()
+	for k, i := range b.Instrs {
+		if i == ssa.Instruction(from) {
+			return walk(b, k+1)
+		}
+	}
+	return nil
+}
+
+// ruleQueueEncoding: C08.h. Sibling agreement between the writer and the
+// reader of SessionTracker.queue. EncodeSeqNum hides a message the client has
+// not been told about by comparing its number for *equality* with a queued
+// EXISTS count; that is only right while every new message has its own
+// queue entry. As long as the reader uses equality, no function may
+// overwrite or merge queue elements in place: the queue only grows by append
+// and shrinks by re-slicing.
+func ruleQueueEncoding(c *Ctx, rule string) {
+	p := c.P
+	enc := p.Func("imapserver", "SessionTracker", "EncodeSeqNum")
+	if enc == nil {
+		c.unresolvedRoot("(*SessionTracker).EncodeSeqNum")
+		return
+	}
+	equality := false
+	var eqPos token.Pos
+	allInstrs(enc, func(i ssa.Instruction) {
+		bo, ok := i.(*ssa.BinOp)
+		if !ok || (bo.Op != token.EQL && bo.Op != token.NEQ) {
+			return
+		}
+		for _, o := range []ssa.Value{bo.X, bo.Y} {
+			if r, ok := loadedField(o); ok && r.is("trackerUpdate", "numMessages") {
+				if _, isC := bo.X.(*ssa.Const); isC {
+					continue
+				}
+				if _, isC := bo.Y.(*ssa.Const); isC {
+					continue
+				}
+				equality = true
+				eqPos = bo.Pos()
+			}
+		}
+	})
+	if !equality {
+		c.okTrivial(rule, "EncodeSeqNum does not match queued EXISTS counts by equality", enc.Pos(), "rule not applicable to this encoding")
+		c.okTrivial(rule, "queue elements: no constraint", enc.Pos(), "")
+		return
+	}
+	c.ok(rule, "EncodeSeqNum matches queued EXISTS counts by equality", eqPos, "one queue entry per new message is required")
+	// element overwrite: a Store whose address is (a field of) an IndexAddr into a load of SessionTracker.queue
+	var bad []string
+	var badPos token.Pos
+	for _, fn := range p.SrcFuncs("imapserver") {
+		allInstrs(fn, func(i ssa.Instruction) {
+			st, ok := i.(*ssa.Store)
+			if !ok {
+				return
+			}
+			a := st.Addr
+			for {
+				if fa, ok := a.(*ssa.FieldAddr); ok {
+					a = fa.X
+					continue
+				}
+				break
+			}
+			ia, ok := a.(*ssa.IndexAddr)
+			if !ok {
+				return
+			}
+			base := ia.X
+			if sl, ok := base.(*ssa.Slice); ok {
+				base = sl.X
+			}
+			if r, ok := loadedField(base); ok && r.is("SessionTracker", "queue") {
+				bad = append(bad, fnKey(fn))
+				badPos = st.Pos()
+			}
+		})
+	}
+	c.check(len(bad) == 0, rule, "queue elements are never overwritten in place", badPos, "append and re-slice only",
+		"a queued update is overwritten in place by "+strings.Join(uniq(bad), ", ")+" (e.g. consecutive EXISTS merged) while EncodeSeqNum still hides unannounced messages by equality with a queued count: a message the client has not been told about gets a sequence number above the announced count")
 }
